@@ -84,14 +84,18 @@ func (h *Hook) LastVids() []string {
 
 // Drain waits until no record has arrived for `quiet` (at most `max`) and returns the records
 // received since the last Drain, sorted.
-func (h *Hook) Drain(quiet, max time.Duration) []string {
+func (h *Hook) Drain(quiet, max time.Duration) []string { return h.DrainFirst(quiet, max, quiet) }
+
+// DrainFirst is Drain that waits up to `first` for the first record (the gateway sends its notifications from
+// a goroutine of their own: after a successful mutating request the record may arrive a little later).
+func (h *Hook) DrainFirst(quiet, max, first time.Duration) []string {
 	start := time.Now()
 	for {
 		h.mu.Lock()
 		idle := time.Since(h.last)
 		n := len(h.recs)
 		h.mu.Unlock()
-		if (n == 0 && time.Since(start) >= quiet) || (n > 0 && idle >= quiet) || time.Since(start) >= max {
+		if (n == 0 && time.Since(start) >= first) || (n > 0 && idle >= quiet) || time.Since(start) >= max {
 			break
 		}
 		time.Sleep(time.Millisecond)
